@@ -294,7 +294,9 @@ int World::on_accept(KFd &k, void *addr_v, unsigned *addrlen) {
 	Client &cl = clients[ci];
 	KFd &s = g_kernel.alloc_fd(FD_STREAM);
 	KFd &lk = *g_kernel.get(k.fd);  // alloc may have moved the vector
-	s.client = ci; s.sock_family = lk.sock_family; s.cfg_fail_at = cl.cfg_fail_at; s.cfg_fail_errno = cl.cfg_fail_errno; s.cfg_calls = 0;
+	last_accepted = ci;
+	s.client = ci; s.sock_family = lk.sock_family; s.cfg_fail_at = cl.cfg_fail_at; s.cfg_fail_errno = cl.cfg_fail_errno; s.cfg_calls = 0; s.epoll_add_errno = cl.epoll_add_errno;
+	if (cl.epoll_add_errno) probe("fault:connection_cannot_be_registered");
 	if (cl.cfg_fail_at) probe("fault:socket_configuration_call_fails");
 	cl.fd = s.fd; cl.accepted = true;
 	struct sockaddr_storage ss; memset(&ss, 0, sizeof ss); socklen_t n = 0;
@@ -451,6 +453,14 @@ void World::on_timer_set(KFd &k, uint64_t ns) {
 	}
 }
 
+void World::on_timer_create_failed() {
+	// the request whose deadline timer cannot be created is abandoned by the daemon: it must not be taken for the owner of the next timer
+	trace.tag("timer-create-failed");
+	if (mode != "exact") return;
+	while (!model.has_unbound_routed() && feed_one_pending()) {}
+	model.on_timer_closed(-3);   // no request carries this value: the most recent request without a timer is marked abandoned
+}
+
 void World::on_log(int pri, const std::string &line) {
 	(void)pri;
 	if (logs.size() < 200) logs.push_back(line);
@@ -484,7 +494,16 @@ void World::password_resolved(int index, bool applied) {
 	pw_changes[index].put("applied", JV::boolean(applied)); pw_changes[index].put("resolved", JV::boolean(true));
 }
 
-void World::on_file_op(const char *op, long result) { trace.tag("fs"); trace.tag(op); trace.u64((uint64_t)result); probe(std::string("fs:") + op); }
+void World::on_file_op(const char *op, long result) {
+	trace.tag("fs"); trace.tag(op); trace.u64((uint64_t)result); probe(std::string("fs:") + op);
+	if ((!strcmp(op, "sockcfg-fault") || !strcmp(op, "epoll-add-fault")) && last_accepted >= 0 && last_accepted < (int)clients.size()) {
+		// the connection being set up will not be served: nothing is expected on it, and the reference model forgets it
+		Client &cl = clients[last_accepted];
+		cl.no_expect = true; cl.policy.put("maydrop", JV::boolean(true)); cl.expq.clear();
+		if (mode == "exact") model.on_peer_gone(cl.idx, false);
+		Input gi; gi.t = Input::GONE; gi.c = cl.idx; gi.why = "connection set-up failed"; shadow_log(gi);
+	}
+}
 
 void World::scan_secret(const std::string &where, const char *p, size_t n) {
 	for (auto &s : secrets) {
